@@ -1284,7 +1284,7 @@ class C13(Check):
             f = self._check_request(m, groups[i], raws[i], ctx, [])
             if f:
                 # a logged handler exception is attributed to the first request whose answer is missing or wrong
-                if exc: return self._check_request(m, groups[i], raws[i], copy.deepcopy(ctx), exc[:1])
+                if exc and ":no-reply" in f: return self._check_request(m, groups[i], raws[i], copy.deepcopy(ctx), exc[:1])
                 return f
         if exc: return "batch:internal-failure:%s" % exc[0]
         return None
